@@ -6,7 +6,7 @@
    handleGetAttachment) against C14/AllowList.v.
    Third case kind: attachment compaction -- a corpus of legacy documents and data documents, and a list of runs
    of the real AttachmentCompactionManager with injected read / stamp faults, against C14/Compaction.v. *)
-From SG Require Export Base.Prelude C14.Attachments C14.AllowList C14.Compaction.
+From SG Require Export Base.Prelude C14.Attachments C14.AllowList C14.Compaction C14.RevTreePersist.
 Open Scope N_scope.
 
 (* the tree is NOT repaired: db/crud.go behaves as [fixed = false] (see C14_Refuted.v) *)
@@ -27,6 +27,11 @@ Record cp_cobs := CObs {
 
 Inductive case :=
 | CHist (ac sw : bool) (evs : list event) (obs : list obsv)
+(* histories with bodies on both sides of the inline limit: [big] = the revisions written with a large body; the
+   model reloads (marshal ; unmarshal) every document before every event; [pobs]: after every event, per document,
+   every non-current leaf as STORED: (revision, listed in hasAttachments, body under bodyKeyMap) *)
+| CHistR (ac sw : bool) (big : list revid) (evs : list event) (obs : list obsv)
+         (pobs : list (list (N * list (revid * bool * bool))))
 | CAllow (evs : list aev) (obs : list (list N))          (* after each event: the keys that are served *)
 | CCompact (docs : list cp_doc) (bodies : list (N * cp_amap)) (atts : list N) (runs : list (cp_crun * cp_cobs)).
 
@@ -81,6 +86,34 @@ Fixpoint check_hist (ac sw : bool) (s : state) (evs : list event) (obs : list ob
   | _, _ => false
   end.
 
+(* the stored view of the non-current leaves, read off the marshalled tree *)
+Definition pleaf_eqb (a b : revid * bool * bool) : bool :=
+  let '(i, f, x) := a in let '(i', f', x') := b in revid_eqb i i' && Bool.eqb f f' && Bool.eqb x x'.
+
+Definition model_pleaves (bigf : revid -> bool) (d : doc) : list (revid * bool * bool) :=
+  let p := fst (marshal bigf (d_revs d)) in
+  flat_map (fun ir => if is_leaf (d_revs d) (snd ir) && negb (is_cur d (snd ir))
+                      then [(r_id (snd ir), is_some (nlookup (fst ir) (p_hasatt p)), is_some (nlookup (fst ir) (p_bodykeys p)))]
+                      else [])
+           (combine (seq 0 (length (d_revs d))) (d_revs d)).
+
+Definition pdoc_ok (bigf : revid -> bool) (s : state) (o : N * list (revid * bool * bool)) : bool :=
+  match dlookup (fst o) (s_docs s) with
+  | Some d => same_set pleaf_eqb (model_pleaves bigf d) (snd o)
+  | None => false
+  end.
+
+Fixpoint check_histR (bigf : revid -> bool) (ac sw : bool) (s : state) (evs : list event) (obs : list obsv)
+                     (pobs : list (list (N * list (revid * bool * bool)))) : bool :=
+  match evs, obs, pobs with
+  | [], [], [] => true
+  | e :: er, o :: or, po :: pr =>
+      let '(s', out, _) := stepR bigf code_fixed ac sw s e in
+      obs_ok s' out o && forallb (pdoc_ok bigf s') po && (N.of_nat (length (s_docs s')) =? N.of_nat (length po))
+      && check_histR bigf ac sw s' er or pr
+  | _, _, _ => false
+  end.
+
 Fixpoint check_allow (a : alist) (op : list (N * list N)) (evs : list aev) (obs : list (list N)) : bool :=
   match evs, obs with
   | [], [] => true
@@ -128,6 +161,8 @@ Fixpoint cp_check_runs (n : N) (s : cp_store) (runs : list (cp_crun * cp_cobs)) 
 Definition check (c : case) : bool :=
   match c with
   | CHist ac sw evs obs => check_hist ac sw init evs obs
+  | CHistR ac sw big evs obs pobs =>
+      check_histR (fun id => existsb (revid_eqb id) big) ac sw init evs obs pobs
   | CAllow evs obs => check_allow [] [] evs obs
   | CCompact docs bodies atts runs => cp_check_runs 1 (CpSt docs bodies (map (fun g => (g, [])) atts) None) runs
   end.
